@@ -13,6 +13,13 @@ __CPROVER_requires(t != NULL)
 __CPROVER_assigns(buf != NULL && size > 0: __CPROVER_object_whole(buf))
 __CPROVER_ensures(__CPROVER_return_value == verif_snlen)
 ;
+/* the escaped copy of a word: ASSUMED here (a fresh NUL-terminated string; its content is exercised by the native
+ * end-to-end run, which parses the JSON line with an independent parser for words containing quotes and backslashes) */
+static char *json_escape(const char *str)
+__CPROVER_requires(str != NULL)
+__CPROVER_assigns()
+__CPROVER_ensures(__CPROVER_is_fresh(__CPROVER_return_value, 1))
+;
 double logmath_exp(logmath_t *lmath, int logb_p)
 __CPROVER_requires(1) __CPROVER_assigns() __CPROVER_ensures(__CPROVER_return_value >= 0.0);
 
